@@ -87,3 +87,44 @@ def slot_words():
     """Delay-slot instructions chosen to interfere with the branch."""
     return [("nop", 0), ("addiu $4,$4,1", I(9, 4, 4, 1)), ("addiu $5,$0,7", I(9, 0, 5, 7)), ("addu $2,$31,$0", R(0x21, 31, 0, 2)), ("addiu $31,$0,0x1234", I(9, 0, 31, 0x1234)),
             ("lw $4,0($29)", I(0x23, 29, 4, 0)), ("sw $31,4($29)", I(0x2b, 29, 31, 4)), ("or $4,$5,$6", R(0x25, 5, 6, 4))]
+
+
+def random_plain(rnd, n):
+    """n words per class with random register numbers / immediates (seeded)."""
+    out = []
+    r = lambda: rnd.choice([rnd.randrange(32), 0, 31, 29])
+    for _ in range(n):
+        name, fn = rnd.choice(list(RTYPE.items()))
+        rd, rs, rt = r(), r(), r()
+        out.append((f"{name} ${rd},${rs},${rt}", R(fn, rs, rt, rd)))
+        name, fn = rnd.choice(list(SHIFT.items()))
+        out.append((f"{name} ${rd},${rt},{rs}", R(fn, 0, rt, rd, rs)))
+        name, op = rnd.choice(list(ITYPE.items()))
+        imm = rnd.choice([rnd.randrange(65536), 0x8000, 0x7fff, 0xffff])
+        out.append((f"{name} ${rt},${rs},{imm:#x}", I(op, rs, rt, imm)))
+        name, op = rnd.choice([(k, v) for k, v in list(LOADS.items()) + list(STORES.items()) if k not in ("lwl", "lwr", "swl", "swr")])
+        out.append((f"{name} ${rt},{imm:#x}(${rs})", I(op, rs, rt, imm)))
+        out.append((f"lui ${rt},{imm:#x}", I(0x0f, 0, rt, imm)))
+    return out
+
+
+def random_branches(rnd, n):
+    out = []
+    r = lambda: rnd.choice([rnd.randrange(32), 0, 31])
+    for _ in range(n):
+        rs, rt = r(), r()
+        off = rnd.choice([rnd.randrange(65536), 0xffff, 0x8000, 1])
+        op = rnd.choice([4, 5, 6, 7])
+        nm = {4: "beq", 5: "bne", 6: "blez", 7: "bgtz"}[op]
+        out.append((f"{nm} ${rs},${rt if op < 6 else 0},{off:#x}", I(op, rs, rt if op < 6 else 0, off)))
+        k = rnd.choice([0, 1])
+        out.append((f"{'bgez' if k else 'bltz'} ${rs},{off:#x}", I(1, rs, k, off)))
+    return out
+
+
+def random_slots(rnd, n):
+    out = []
+    for _ in range(n):
+        rt, rs = rnd.randrange(32), rnd.randrange(32)
+        out.append((f"addiu ${rt},${rs},{n}", I(9, rs, rt, rnd.randrange(65536))))
+    return out
